@@ -39,11 +39,23 @@ def run_one(args):
 def main():
     args = sys.argv[1:]
     allp = "--all-props" in args
-    args = [a for a in args if a != "--all-props"]
+    args = [a for a in args if a not in ("--all-props", "--record")]
     dirs = args or sorted(glob.glob(os.path.join(VERIF, "seeded", "*")))
     with concurrent.futures.ThreadPoolExecutor(max_workers=6) as ex:
         for (name, res) in ex.map(run_one, [(d, allp) for d in dirs]):
             fired = {p: r["keys"] for p, r in res.items() if isinstance(r, dict) and r.get("exit") == 1}
+            mp = os.path.join(VERIF, "seeded", name, "meta.json")
+            if os.path.exists(mp) and "--record" in sys.argv:
+                meta = json.load(open(mp))
+                known = set()
+                kf = os.path.join(VERIF, "known_findings.txt")
+                for line in open(kf):
+                    m = re.match(r"known:\s+property=(\S+)\s+key=(\S+)", line)
+                    if m:
+                        known.add(m.group(2))
+                meta["detected_by"] = {p: [k for k in ks if k not in known] for p, ks in fired.items()}
+                meta["detected"] = bool(fired)
+                json.dump(meta, open(mp, "w"), indent=1)
             print("%s: %s" % (name, ("DETECTED " + json.dumps(fired)) if fired else ("missed " + json.dumps(res))))
 
 
